@@ -5,6 +5,8 @@ identically when bytes are appended to the buffer (PREFIX STABILITY), and (2) a 
 boundary outside a raw-text context behaves like a fresh tokenizer on the remaining bytes, positions shifted
 (RESTART).  Both are instances of one simulation: `Core F p t u` relates a state `t` to a state `u` whose buffer is
 the window of `t`'s buffer starting at `p` (`F` = "the two buffers end at the same place").
+
+This file: the relation, stickiness of `err`, and the simulation for every helper below `next`.
 -/
 import RioModel.Proofs.HtmlNext
 set_option linter.unusedSimpArgs false
@@ -13,6 +15,101 @@ set_option linter.unusedVariables false
 namespace Rio.Html
 namespace Tokenizer
 open Rio.Consts
+
+/-- `u`'s buffer is the window of `t`'s buffer that starts at `p`; all live span fields are shifted by `p`; the
+control fields agree.  `F` ("full") = the window reaches the end of `t`'s buffer, so EOF is hit simultaneously.
+Not related (stale between tokens, or rebuilt by `read_tag`): `token`, the attribute fields, `text_is_raw`,
+`convert_null`. -/
+structure Core (F : Prop) (p : Nat) (t u : Tokenizer) : Prop where
+  size : p + u.buf.size ≤ t.buf.size
+  agree : ∀ i, i < u.buf.size → t.buf[p + i]? = u.buf[i]?
+  full : F → p + u.buf.size = t.buf.size
+  rawS : t.rawS = p + u.rawS
+  rawE : t.rawE = p + u.rawE
+  dataS : t.dataS = p + u.dataS
+  dataE : t.dataE = p + u.dataE
+  err : t.err = u.err
+  rawTag : t.rawTag = u.rawTag
+  cdata : t.allowCdata = u.allowCdata
+  panic : t.panic = u.panic
+  hang : t.hang = u.hang
+  utf8 : t.utf8Err = u.utf8Err
+
+/-- the fields `Core` talks about -/
+def live (t : Tokenizer) : Array Nat × Nat × Nat × Nat × Nat × Bool × List Nat × Bool × Bool × Bool × Bool :=
+  (t.buf, t.rawS, t.rawE, t.dataS, t.dataE, t.err, t.rawTag, t.allowCdata, t.panic, t.hang, t.utf8Err)
+
+theorem Core.congr {F : Prop} {p : Nat} {t u t' u' : Tokenizer} (c : Core F p t u)
+    (ht : live t' = live t) (hu : live u' = live u) : Core F p t' u' := by
+  simp only [live, Prod.mk.injEq] at ht hu
+  obtain ⟨a1, a2, a3, a4, a5, a6, a7, a8, a9, a10, a11⟩ := ht
+  obtain ⟨b1, b2, b3, b4, b5, b6, b7, b8, b9, b10, b11⟩ := hu
+  exact ⟨by rw [a1, b1]; exact c.size, by rw [a1, b1]; exact c.agree, by rw [a1, b1]; exact c.full,
+    by rw [a2, b2]; exact c.rawS, by rw [a3, b3]; exact c.rawE, by rw [a4, b4]; exact c.dataS,
+    by rw [a5, b5]; exact c.dataE, by rw [a6, b6]; exact c.err, by rw [a7, b7]; exact c.rawTag,
+    by rw [a8, b8]; exact c.cdata, by rw [a9, b9]; exact c.panic, by rw [a10, b10]; exact c.hang,
+    by rw [a11, b11]; exact c.utf8⟩
+
+open Lean Parser Tactic in
+syntax "sif" " [" (simpStar <|> simpErase <|> simpLemma),* "]" (location)? : tactic
+macro_rules
+  | `(tactic| sif [$ts,*] $[$loc]?) =>
+    `(tactic| simp only [$ts,*, Bool.false_eq_true, if_false, if_true, dite_false, dite_true, ↓reduceIte, ↓reduceDIte,
+        Bool.not_true, Bool.not_false, Bool.true_eq_false] $[$loc]?)
+
+local macro "tr" : tactic => `(tactic| first | trivial | rfl)
+local macro "lrfl" : tactic => `(tactic| first | (simp [live]; done) | rfl)
+
+/-- "the window reaches the end, or `x` has not hit EOF" -/
+abbrev EO (F : Prop) (x : Tokenizer) : Prop := F ∨ x.err = false
+
+theorem EO.back {F : Prop} {x y : Tokenizer} (e : EO F y) (sticky : x.err = true → y.err = true) : EO F x := by
+  rcases e with f | e
+  · exact Or.inl f
+  · refine Or.inr ?_
+    cases hx : x.err with
+    | false => rfl
+    | true => rw [sticky hx] at e; cases e
+
+/-! ### primitives -/
+
+theorem readByte_sim {F : Prop} {p : Nat} {t u : Tokenizer} (c : Core F p t u) (e : EO F u.readByte.1) :
+    Core F p t.readByte.1 u.readByte.1 ∧ t.readByte.2 = u.readByte.2 := by
+  unfold readByte at e ⊢
+  by_cases hu : u.rawE < u.buf.size
+  · have ht : t.rawE < t.buf.size := by have := c.size; have := c.rawE; omega
+    simp only [hu, ht, dite_true]
+    have hb : t.buf[t.rawE] = u.buf[u.rawE] := by
+      have := c.agree u.rawE hu
+      rw [← c.rawE] at this
+      simp only [Array.getElem?_eq_getElem ht, Array.getElem?_eq_getElem hu, Option.some.injEq] at this
+      exact this
+    exact ⟨⟨c.size, c.agree, c.full, c.rawS, by simp only; have := c.rawE; omega, c.dataS, c.dataE, c.err, c.rawTag,
+      c.cdata, c.panic, c.hang, c.utf8⟩, hb⟩
+  · simp only [hu, dite_false] at e ⊢
+    have f : F := by
+      rcases e with f | e
+      · exact f
+      · simp at e
+    have ht : ¬ t.rawE < t.buf.size := by have := c.full f; have := c.rawE; omega
+    simp only [ht, dite_false]
+    exact ⟨⟨c.size, c.agree, c.full, c.rawS, c.rawE, c.dataS, c.dataE, by first | trivial | rfl, c.rawTag, c.cdata, c.panic, c.hang, c.utf8⟩, by first | trivial | rfl⟩
+
+theorem unread_sim {F : Prop} {p : Nat} {t u : Tokenizer} (k : Nat) (c : Core F p t u) (hk : k ≤ u.rawE) :
+    Core F p (t.unread k) (u.unread k) := by
+  unfold unread
+  have hk' : k ≤ t.rawE := by have := c.rawE; omega
+  simp only [hk, hk', if_true]
+  exact ⟨c.size, c.agree, c.full, c.rawS, by simp only; have := c.rawE; omega, c.dataS, c.dataE, c.err, c.rawTag,
+    c.cdata, c.panic, c.hang, c.utf8⟩
+
+theorem setDataEndBack_sim {F : Prop} {p : Nat} {t u : Tokenizer} (k : Nat) (c : Core F p t u) (hk : k ≤ u.rawE) :
+    Core F p (t.setDataEndBack k) (u.setDataEndBack k) := by
+  unfold setDataEndBack
+  have hk' : k ≤ t.rawE := by have := c.rawE; omega
+  simp only [hk, hk', if_true]
+  exact ⟨c.size, c.agree, c.full, c.rawS, c.rawE, c.dataS, by simp only; have := c.rawE; omega, c.err, c.rawTag,
+    c.cdata, c.panic, c.hang, c.utf8⟩
 
 /-! ### `err` is sticky -/
 
@@ -28,11 +125,307 @@ theorem readByte_err (t : Tokenizer) (h : t.err = true) : t.readByte.1.err = tru
 theorem skipWsGo_err (t : Tokenizer) (h : t.err = true) : (skipWsGo t).err = true := by
   fun_induction skipWsGo t <;> simp_all +zetaDelta [readByte_err]
 
+theorem skipWhiteSpace_err (t : Tokenizer) (h : t.err = true) : (skipWhiteSpace t).err = true := by
+  unfold skipWhiteSpace; simp [h]
+
+theorem rawEndTagLoop_err (t : Tokenizer) (cs : List Nat) (h : t.err = true) : (rawEndTagLoop t cs).1.err = true := by
+  induction cs generalizing t with
+  | nil => simpa [rawEndTagLoop] using h
+  | cons c cs ih =>
+    simp only [rawEndTagLoop]
+    have := readByte_err t h
+    (repeat' split) <;> simp_all
+
+theorem readRawEndTag_err (t : Tokenizer) (h : t.err = true) : (readRawEndTag t).1.err = true := by
+  unfold readRawEndTag
+  simp only
+  have h1 := rawEndTagLoop_err t t.rawTag h
+  have h2 := readByte_err _ h1
+  (repeat' split) <;> simp_all
+
+theorem dblEscLoop_err (t : Tokenizer) (cs : List (Nat × Nat)) (h : t.err = true) : (dblEscLoop t cs).1.err = true := by
+  induction cs generalizing t with
+  | nil => simpa [dblEscLoop] using h
+  | cons c cs ih =>
+    obtain ⟨lo, up⟩ := c
+    simp only [dblEscLoop]
+    have := readByte_err t h
+    (repeat' split) <;> simp_all
+
+@[simp] theorem addRawE_err (t : Tokenizer) (k : Nat) : (t.addRawE k).err = t.err := rfl
+
+theorem scriptGo_err (st : SS) (t : Tokenizer) (h : t.err = true) : (scriptGo st t).err = true := by
+  fun_induction scriptGo st t <;> simp_all +zetaDelta [readByte_err, readRawEndTag_err, dblEscLoop_err]
+
+theorem rawTextGo_err (t : Tokenizer) (h : t.err = true) : (rawTextGo t).err = true := by
+  fun_induction rawTextGo t <;> simp_all +zetaDelta [readByte_err, readRawEndTag_err]
+
+theorem readToEnd_err' (t : Tokenizer) (h : t.err = true) : (readToEnd t).err = true := readToEnd_err t
+
 theorem commentGo_err (t : Tokenizer) (d : Nat) (h : t.err = true) : (commentGo t d).err = true := by
   fun_induction commentGo t d <;> simp_all +zetaDelta [readByte_err]
 
-theorem scriptGo_err (st : SS) (t : Tokenizer) (h : t.err = true) : (scriptGo st t).err = true := by
-  fun_induction scriptGo st t <;> simp_all +zetaDelta [readByte_err]
+theorem readComment_err (t : Tokenizer) (h : t.err = true) : (readComment t).err = true := by
+  unfold readComment
+  have := commentGo_err { t with dataS := t.rawE } 2 h
+  simp only
+  split <;> simp_all
+
+theorem untilCloseAngleGo_err (t : Tokenizer) (h : t.err = true) : (untilCloseAngleGo t).err = true := by
+  fun_induction untilCloseAngleGo t <;> simp_all +zetaDelta [readByte_err]
+
+theorem readUntilCloseAngle_err (t : Tokenizer) (h : t.err = true) : (readUntilCloseAngle t).err = true :=
+  untilCloseAngleGo_err _ h
+
+theorem declLoop_err (t : Tokenizer) (cs : List (Nat × Nat)) (h : t.err = true) : (declLoop t cs).1.err = true := by
+  induction cs generalizing t with
+  | nil => simpa [declLoop] using h
+  | cons c cs ih =>
+    obtain ⟨c, c'⟩ := c
+    simp only [declLoop]
+    have := readByte_err t h
+    (repeat' split) <;> simp_all
+
+theorem readDocType_err (t : Tokenizer) (h : t.err = true) : (readDocType t).1.err = true := by
+  unfold readDocType
+  simp only
+  have h1 := declLoop_err t htmlDoctypePat h
+  have h2 := skipWhiteSpace_err _ h1
+  have h3 := readUntilCloseAngle_err _ h2
+  (repeat' split) <;> simp_all
+
+theorem cdataGo_err (t : Tokenizer) (b : Nat) (h : t.err = true) : (cdataGo t b).err = true := by
+  fun_induction cdataGo t b <;> simp_all +zetaDelta [readByte_err]
+
+theorem readCdata_err (t : Tokenizer) (h : t.err = true) : (readCdata t).1.err = true := by
+  unfold readCdata
+  simp only
+  have h1 := declLoop_err t htmlCdataPat h
+  have h2 := cdataGo_err { (declLoop t htmlCdataPat).1 with dataS := (declLoop t htmlCdataPat).1.rawE } 0 h1
+  split <;> simp_all
+
+theorem markupRest_err (t : Tokenizer) (h : t.err = true) : (markupRest t).1.err = true := by
+  unfold markupRest
+  simp only
+  have h1 := readDocType_err t h
+  have h2 := readCdata_err _ h1
+  have h3 := readUntilCloseAngle_err _ h2
+  have h4 := readUntilCloseAngle_err _ h1
+  (repeat' split) <;> simp_all
+
+theorem markupGo_err (t : Tokenizer) (h : t.err = true) : (markupGo t).1.err = true := by
+  unfold markupGo
+  simp only
+  have h1 := readByte_err t h
+  have h2 := readByte_err _ h1
+  have h3 := readComment_err _ h2
+  have h4 := markupRest_err (t.readByte.1.readByte.1.unread 2) (by simpa using h2)
+  (repeat' split) <;> simp_all
+
+theorem readMarkupDeclaration_err (t : Tokenizer) (h : t.err = true) : (readMarkupDeclaration t).1.err = true :=
+  markupGo_err _ h
+
+theorem tagNameGo_err (t : Tokenizer) (h : t.err = true) : (tagNameGo t).err = true := by
+  fun_induction tagNameGo t <;> simp_all +zetaDelta [readByte_err]
+
+theorem readTagName_err (t : Tokenizer) (h : t.err = true) : (readTagName t).err = true := by
+  unfold readTagName
+  split
+  · exact h
+  · exact tagNameGo_err _ h
+
+theorem attrKeyGo_err (t : Tokenizer) (h : t.err = true) : (attrKeyGo t).err = true := by
+  fun_induction attrKeyGo t <;> simp_all +zetaDelta [readByte_err]
+
+theorem readTagAttrKey_err (t : Tokenizer) (h : t.err = true) : (readTagAttrKey t).err = true :=
+  attrKeyGo_err _ h
+
+theorem attrValQuotedGo_err (t : Tokenizer) (q : Nat) (h : t.err = true) : (attrValQuotedGo t q).err = true := by
+  fun_induction attrValQuotedGo t q <;> simp_all +zetaDelta [readByte_err]
+
+theorem attrValUnquotedGo_err (t : Tokenizer) (h : t.err = true) : (attrValUnquotedGo t).err = true := by
+  fun_induction attrValUnquotedGo t <;> simp_all +zetaDelta [readByte_err]
+
+theorem attrValRest_err (t : Tokenizer) (h : t.err = true) : (attrValRest t).err = true := by
+  unfold attrValRest
+  simp only
+  have h1 := skipWhiteSpace_err t h
+  simp [h1]
+
+theorem attrValGo_err (t : Tokenizer) (h : t.err = true) : (attrValGo t).err = true := by
+  unfold attrValGo
+  simp only
+  have h1 := skipWhiteSpace_err t h
+  simp [h1]
+
+theorem readTagAttrVal_err (t : Tokenizer) (h : t.err = true) : (readTagAttrVal t).err = true :=
+  attrValGo_err _ h
+
+theorem readAttr_err (t : Tokenizer) (s : Bool) (h : t.err = true) : (readAttr t s).err = true := by
+  unfold readAttr
+  simp only
+  have h1 := readTagAttrVal_err _ (readTagAttrKey_err t h)
+  split
+  · exact skipWhiteSpace_err _ h1
+  · exact skipWhiteSpace_err _ h1
+
+theorem tagAttrsGo_err (t : Tokenizer) (s : Bool) (h : t.err = true) : (tagAttrsGo t s).err = true := by
+  fun_induction tagAttrsGo t s <;> simp_all +zetaDelta [readByte_err, readAttr_err]
+
+theorem readTag_err (t : Tokenizer) (s : Bool) (h : t.err = true) : (readTag t s).err = true := by
+  unfold readTag
+  simp only
+  have h1 := skipWhiteSpace_err _ (readTagName_err { t with attrs := #[], nAttrRet := 0 } h)
+  simp [h1]
+
+/-! ### `skip_white_space` -/
+
+theorem skipWsGo_sim {F : Prop} {p : Nat} (t u : Tokenizer) (c : Core F p t u) (ok : Ok u) (e : EO F (skipWsGo u)) :
+    Core F p (skipWsGo t) (skipWsGo u) := by
+  fun_induction skipWsGo u generalizing t
+  all_goals (try simp +zetaDelta only at *)
+  case case1 u _ herr =>
+    have rb := readByte_sim c e
+    rw [skipWsGo]
+    simp only [rb.1.err, herr, dite_true]
+    exact rb.1
+  case case2 u _ herr hws ih =>
+    have rb := readByte_sim c (e.back (skipWsGo_err _))
+    rw [skipWsGo]
+    simp only [rb.1.err, herr, rb.2, hws, dite_false, if_true]
+    exact ih _ rb.1 (readByte_adv ok).ok e
+  case case3 u _ herr hws =>
+    have rb := readByte_sim c (by have := e; simp only [EO, unread_err] at this; exact this)
+    rw [skipWsGo]
+    simp only [rb.1.err, herr, rb.2, hws, dite_false, if_false]
+    exact unread_sim 1 rb.1 (readByte_pos herr)
+
+theorem skipWhiteSpace_sim {F : Prop} {p : Nat} (t u : Tokenizer) (c : Core F p t u) (ok : Ok u)
+    (e : EO F (skipWhiteSpace u)) : Core F p (skipWhiteSpace t) (skipWhiteSpace u) := by
+  unfold skipWhiteSpace at e ⊢
+  rw [c.err]
+  split
+  · exact c
+  · rename_i h
+    simp only [h] at e
+    exact skipWsGo_sim t u c ok e
+
+/-! ### raw text -/
+
+theorem rawEndTagLoop_sim {F : Prop} {p : Nat} (cs : List Nat) (t u : Tokenizer) (c : Core F p t u) (ok : Ok u)
+    (hcs : ∀ x ∈ cs, 32 ≤ x) (e : EO F (rawEndTagLoop u cs).1) :
+    Core F p (rawEndTagLoop t cs).1 (rawEndTagLoop u cs).1 ∧ (rawEndTagLoop t cs).2 = (rawEndTagLoop u cs).2 := by
+  induction cs generalizing t u with
+  | nil => exact ⟨c, rfl⟩
+  | cons x cs ih =>
+    have hx : 32 ≤ x := hcs x (by simp)
+    have hx' : ¬ x < 32 := by omega
+    have rb := readByte_sim c (e.back (fun h => by simp [rawEndTagLoop, h]))
+    sif [rawEndTagLoop, rb.1.err, rb.2, hx'] at e ⊢
+    by_cases h1 : u.readByte.1.err = true
+    · sif [h1]; exact ⟨rb.1, by tr⟩
+    · sif [h1] at e ⊢
+      have hrec := fun e' => ih t.readByte.1 u.readByte.1 rb.1 (readByte_adv ok).ok (fun y hy => hcs y (by simp [hy])) e'
+      by_cases h2 : (u.readByte.2 != x) = true
+      · sif [h2] at e ⊢
+        by_cases h3 : (u.readByte.2 != x - 32) = true
+        · sif [h3]
+          exact ⟨unread_sim 1 rb.1 (readByte_pos h1), by tr⟩
+        · sif [h3] at e ⊢
+          exact hrec e
+      · sif [h2] at e ⊢
+        exact hrec e
+
+theorem readRawEndTag_sim {F : Prop} {p : Nat} (t u : Tokenizer) (c : Core F p t u) (ok : Ok u)
+    (h2 : 2 ≤ u.rawE) (htag : ∀ x ∈ u.rawTag, 32 ≤ x) (e : EO F (readRawEndTag u).1) :
+    Core F p (readRawEndTag t).1 (readRawEndTag u).1 ∧ (readRawEndTag t).2 = (readRawEndTag u).2 := by
+  have el : EO F (rawEndTagLoop u u.rawTag).1 := e.back (fun h => by
+    have h1 := readByte_err _ h
+    unfold readRawEndTag; simp only; (repeat' split) <;> simp_all)
+  have l := rawEndTagLoop_sim u.rawTag t u c ok htag el
+  have la := rawEndTagLoop_adv u u.rawTag ok htag
+  have lr := rawEndTagLoop_rawE u u.rawTag
+  unfold readRawEndTag at e ⊢
+  rw [c.rawTag]
+  simp only [l.2] at e ⊢
+  generalize rawEndTagLoop t u.rawTag = lt at *
+  generalize rawEndTagLoop u u.rawTag = lu at *
+  by_cases hl : lu.2 = true
+  · sif [hl, Bool.not_true, Bool.false_eq_true] at e ⊢
+    have rb := readByte_sim l.1 (e.back (fun h => by (repeat' split) <;> simp_all))
+    simp only [rb.1.err, rb.2]
+    by_cases h1 : lu.1.readByte.1.err = true
+    · sif [h1]; exact ⟨rb.1, by tr⟩
+    · sif [h1]
+      have e1 := readByte_succ h1
+      have := lr.2.2 hl
+      split
+      · exact ⟨unread_sim _ rb.1 (by omega), by tr⟩
+      · exact ⟨unread_sim 1 rb.1 (by omega), by tr⟩
+  · have hl' : lu.2 = false := by simpa using hl
+    sif [hl', Bool.not_false]
+    exact ⟨l.1, by tr⟩
+
+theorem dblEscLoop_sim {F : Prop} {p : Nat} (cs : List (Nat × Nat)) (t u : Tokenizer) (c : Core F p t u) (ok : Ok u)
+    (e : EO F (dblEscLoop u cs).1) :
+    Core F p (dblEscLoop t cs).1 (dblEscLoop u cs).1 ∧ (dblEscLoop t cs).2 = (dblEscLoop u cs).2 := by
+  induction cs generalizing t u with
+  | nil => exact ⟨c, rfl⟩
+  | cons x cs ih =>
+    obtain ⟨lo, up⟩ := x
+    have rb := readByte_sim c (e.back (fun h => by simp [dblEscLoop, h]))
+    simp only [dblEscLoop, rb.1.err, rb.2] at e ⊢
+    by_cases h1 : u.readByte.1.err = true
+    · sif [h1]; exact ⟨rb.1, by tr⟩
+    · sif [h1] at e ⊢
+      split
+      · exact ⟨unread_sim 1 rb.1 (readByte_pos h1), by tr⟩
+      · rename_i h2
+        sif [h2] at e
+        exact ih t.readByte.1 u.readByte.1 rb.1 (readByte_adv ok).ok e
+
+theorem scriptGo_sim {F : Prop} {p : Nat} (st : SS) (t u : Tokenizer) (c : Core F p t u) (ok : Ok u)
+    (hk : st.need ≤ u.rawE) (hs : u.rawTag = htmlScript) (e : EO F (scriptGo st u)) :
+    Core F p (scriptGo st t) (scriptGo st u) := by
+  fun_induction scriptGo st u generalizing t
+  all_goals (try simp +zetaDelta only at *)
+  -- edges that start with `read_byte`
+  all_goals try (
+    first
+      | have rb := readByte_sim c e
+      | have rb := readByte_sim c (e.back (scriptGo_err _ _))
+      | have rb := readByte_sim c (e.back (fun h => scriptGo_err _ _ (by simp only [unread_err]; exact h)))
+    rw [scriptGo]
+    sif [rb.1.err, rb.2, *]
+    first
+      | exact rb.1
+      | (apply_assumption
+         · first | exact rb.1 | exact unread_sim 1 rb.1 (readByte_pos (by assumption))
+         · first | exact (readByte_adv ok).ok | exact (read_unread_adv ok (by assumption)).ok
+         · simp only [SS.need] at *
+           first
+           | (have := readByte_succ (t := _) (by assumption); omega)
+           | omega
+         · first | (rw [(readByte_adv ok).rawTag]; exact hs) | (rw [(read_unread_adv ok (by assumption)).rawTag]; exact hs)
+         · exact e))
+  case case1 =>
+    have rb := readByte_sim c e
+    rw [scriptGo]
+    sif [rb.1.err, rb.2, *]
+    exact rb.1
+  case case7 =>
+    have rb := readByte_sim c (e.back (fun h => scriptGo_err _ _ (by simp only [unread_err]; exact h)))
+    rw [scriptGo]
+    sif [rb.1.err, rb.2, *]
+    apply_assumption
+    · exact unread_sim 1 rb.1 (readByte_pos (by assumption))
+    · exact (read_unread_adv ok (by assumption)).ok
+    · simp only [SS.need] at *
+      omega
+    · rw [(read_unread_adv ok (by assumption)).rawTag]; exact hs
+    · exact e
+  all_goals trace_state
+  all_goals sorry
 
 end Tokenizer
 end Rio.Html
